@@ -184,6 +184,15 @@ def install(world):
     misc.generate = _generate
     nano.urandom = _urandom
     locmem.time = _Time()
+    # second line of defence, for trees in which the id source has been re-written (a behaviour-preserving change may
+    # well draw its entropy from os.urandom / secrets / random instead of the nanoid module): the process-wide entropy
+    # sources are seeded too, so that a run stays a pure function of its seed. Nothing in the unchanged library uses them.
+    import os
+    import random
+
+    os.urandom = _urandom
+    random._urandom = _urandom
+    random.seed(world.id_rng.getrandbits(32))
 
 
 # -------------------------------------------------------------------------------------------
